@@ -31,6 +31,7 @@ class Dispatcher(object):
     def connect(self, endpoint):
         self.w.log.append("dispatcher.connect")
         self.state = "connecting"
+        self.w.wire = []                 # what is written to THIS connection
 
     def disconnect(self):
         self.w.log.append("dispatcher.disconnect")
@@ -42,6 +43,7 @@ class Dispatcher(object):
         if self.state != "up":
             self.w.violations.append("write to a connection that is down")
         self.w.log.append("dispatcher.send")
+        self.w.wire.append(bytes(d) if isinstance(d, (bytes, bytearray)) else d)
 
 
 class World(object):
@@ -49,6 +51,7 @@ class World(object):
         self.log = []
         self.violations = []
         self.sent_nodes = []
+        self.wire = []
 
 
 class NoiseProtocolDouble(object):
@@ -149,7 +152,7 @@ def build(reconnect_opt, real_noise=False):
             """stands for WANoiseProtocolHandshakeWorker (a thread running the Noise handshake): start() = handshake begins"""
 
             def __init__(self, protocol, stream, client_config, s, rs=None, finish_callback=None):
-                self.protocol, self.finish = protocol, finish_callback
+                self.protocol, self.finish, self.stream = protocol, finish_callback, stream
                 w.worker = self
 
             def start(self):
@@ -157,12 +160,15 @@ def build(reconnect_opt, real_noise=False):
                 w.log.pop()                      # the worker's own reset before it starts is not a reaction to a disconnect
                 self.protocol.state = NM.WANoiseProtocol.STATE_HANDSHAKE
                 w.log.append("login-attempt")
+                # the handshake thread may run at once: its first message goes through the stream before start() returns
+                self.stream.write_segment(b"client-hello")
         NM.WANoiseProtocolHandshakeWorker = Worker
-        st = YowStack((YowNetworkLayer, NM.YowNoiseLayer, CoderDouble, AxolotlControlLayer, L.YowParallelLayer(prot), App), reversed=False)
-        noise = st.getLayer(1)
+        from yowsup.layers.noise.layer_noise_segments import YowNoiseSegmentsLayer
+        st = YowStack((YowNetworkLayer, YowNoiseSegmentsLayer, NM.YowNoiseLayer, CoderDouble, AxolotlControlLayer, L.YowParallelLayer(prot), App), reversed=False)
+        noise = st.getLayer(2)
         noise._wa_noiseprotocol = NoiseProtocolDouble(noise, w, NM.WANoiseProtocol)
         w.noise, w.NM = noise, NM
-        net, app = st.getLayer(0), st.getLayer(5)
+        net, app = st.getLayer(0), st.getLayer(6)
     else:
         st = YowStack((YowNetworkLayer, Bridge, AxolotlControlLayer, L.YowParallelLayer(prot), App), reversed=False)
         net, app = st.getLayer(0), st.getLayer(4)
@@ -177,7 +183,7 @@ def build(reconnect_opt, real_noise=False):
         prof.config = Config(phone=prof.username, client_static_keypair=KeyPair.from_bytes(bytes(range(1, 65))), server_static_public=PublicKey(bytes(range(100, 132))))
         prof.write_config = lambda c: None
     st.setProp("profile", prof)
-    iq = [s for s in st.getLayer(4 if real_noise else 3).sublayers if type(s).__name__ == "YowIqProtocolLayer"][0]
+    iq = [s for s in st.getLayer(5 if real_noise else 3).sublayers if type(s).__name__ == "YowIqProtocolLayer"][0]
     # the keep-alive thread is observed at its public surface (start / stop / run): its body is run inline per tick
     w.ping_thread = None
     if not hasattr(iqmod.YowPingThread, "_verif_orig_stop"):
@@ -253,6 +259,8 @@ def h_history(ctx, n, prefix=(), real_noise=False):
         ids = [hooks.dict_get(x.attributes, "id") for x in w.sent_nodes if getattr(x, "tag", None) == "iq" and x.getChild("list") is not None]
         return ids[-1] if ids and g["upload_open"] else None
 
+    inject = w.noise.receive if real_noise else net.receive      # stanzas enter above the byte framing
+
     def in_handshake():
         return real_noise and w.noise._wa_noiseprotocol.state == w.NM.WANoiseProtocol.STATE_HANDSHAKE
 
@@ -306,7 +314,7 @@ def h_history(ctx, n, prefix=(), real_noise=False):
             app.connect()
             g["pending"] = True
         elif ev == "keys-upload-result":
-            net.receive(N("iq", {"id": pending_upload(), "type": "result", "from": "s.whatsapp.net"}))
+            inject(N("iq", {"id": pending_upload(), "type": "result", "from": "s.whatsapp.net"}))
             g["upload_open"] = False
         elif ev == "connected":
             disp.state = "up"
@@ -328,18 +336,18 @@ def h_history(ctx, n, prefix=(), real_noise=False):
         elif ev == "disconnect-request":
             app.disconnect()
         elif ev == "success":
-            net.receive(N("success", {"t": "1400000000", "props": "4", "creation": "1300000000", "expiration": "1500000000", "kind": "free", "status": "active"}, None, b"x"))
+            inject(N("success", {"t": "1400000000", "props": "4", "creation": "1300000000", "expiration": "1500000000", "kind": "free", "status": "active"}, None, b"x"))
         elif ev == "failure":
-            net.receive(N("failure", {"reason": "401"}))
+            inject(N("failure", {"reason": "401"}))
         elif ev.startswith("stream-error"):
             kind = ev.split("-")[-1]
             kids = [N("conflict"), N("text", None, None, b"Replaced by new connection")] if kind == "conflict" else [N("ack")] if kind == "ack" else [N("xml-not-well-formed")]
-            net.receive(N("stream:error", {}, kids))
+            inject(N("stream:error", {}, kids))
         elif ev == "ping-tick":
             ping_tick(w, iqmod)
         elif ev == "pong":
             pid = g["outstanding"][0]
-            net.receive(N("iq", {"id": pid, "type": "result", "from": "s.whatsapp.net"}))
+            inject(N("iq", {"id": pid, "type": "result", "from": "s.whatsapp.net"}))
         run_loop(st)
         new = w.log[mark:]
         tag = "#%d %s" % (step, ev)
@@ -349,6 +357,10 @@ def h_history(ctx, n, prefix=(), real_noise=False):
         if ev == "connected":
             obs.append((tag + ": connect announced exactly once", ups == 1 and downs == 0))
             obs.append((tag + ": exactly one login attempt", logins == 1))
+            if real_noise:
+                stream = b"".join(x for x in w.wire if isinstance(x, bytes))
+                obs.append((tag + ": the login starts fresh on the wire: raw prologue, then the handshake's first message as one whole frame (%r)" % stream[:24],
+                            stream == b"WA\x04\x00" + b"\x00\x00\x0c" + b"client-hello"))
             g.update(up=True, pending=False, ever=True)
         else:
             obs.append((tag + ": no spurious connected announcement", ups == 0))
